@@ -304,6 +304,50 @@ func c14One(w *c14Worker, seed int64, idx int) (string, c14Case, bool) {
 		if got := zr[0].String(); got != "&{X:0 Name: F:0 B:0 Ok:false U:0}" {
 			return mismatch("zero-valued struct reference", "&{X:0 Name: F:0 B:0 Ok:false U:0}", got), cs, true
 		}
+		if rng.Chance(1, 4) {
+			// the declaration of a struct type may run more than once in one VM (a type declared in a function
+			// that is called repeatedly, the same source evaluated or loaded again): instances still print
+			// every field once, in declaration order
+			cs.Kind = "struct reference after the type declaration ran again"
+			m := core.NewMachine(core.VMOpts{Optimize: rng.Bool(), Obs: core.NewObs(core.SmallBudget, false, nil)})
+			a, bq, c := rng.Intn(100), rng.Intn(100), rng.Intn(9)
+			want := fmt.Sprintf("&{A:%d B:%d Name:n C:%d.5}", a, bq, c)
+			var src string
+			runs := rng.Range(2, 4)
+			switch rng.Intn(3) {
+			case 0: // the same declarations evaluated several times
+				src = fmt.Sprintf("type R struct { A int; B int; Name string; C float64 }\nfunc mkR() *R { return &R{A: %d, B: %d, Name: \"n\", C: %d.5} }", a, bq, c)
+				for i := 0; i < runs; i++ {
+					if o := m.Eval(nil, src); o.Failed() {
+						return "evaluating a type declaration again fails: " + core.ErrFirstLine(o.Err) + o.Panic, cs, true
+					}
+				}
+			case 1: // a type declared inside a function that is called several times
+				src = fmt.Sprintf("func mkR() any { type R struct { A int; B int; Name string; C float64 }; return &R{A: %d, B: %d, Name: \"n\", C: %d.5} }", a, bq, c)
+				if o := m.Eval(nil, src); o.Failed() {
+					return "a function-local struct type fails to compile: " + core.ErrFirstLine(o.Err) + o.Panic, cs, true
+				}
+				for i := 1; i < runs; i++ {
+					m.Call("main.mkR", 1)
+				}
+			default: // the same package loaded several times
+				src = fmt.Sprintf("package main\n\ntype R struct {\n\tA int\n\tB int\n\tName string\n\tC float64\n}\n\nfunc mkR() *R {\n\treturn &R{A: %d, B: %d, Name: \"n\", C: %d.5}\n}\n", a, bq, c)
+				for i := 0; i < runs; i++ {
+					var err error
+					if p := core.Guard(func() { err = m.VM.Load(core.MapFS(map[string]string{"app/main.go": src}), "app") }); p != "" || err != nil {
+						return fmt.Sprintf("loading the package again fails: %v %s", err, p), cs, true
+					}
+				}
+			}
+			cs.Desc = []string{src, fmt.Sprint(runs)}
+			o := m.Call("main.mkR", 1)
+			if o.Failed() || len(o.Rets) != 1 {
+				return "constructing an instance after the redeclaration fails: " + core.ErrFirstLine(o.Err) + o.Panic, cs, true
+			}
+			if o.Rets[0] != want {
+				return mismatch(fmt.Sprintf("struct reference after its type declaration ran %d times", runs), want, o.Rets[0]), cs, true
+			}
+		}
 	default: // typed nil containers
 		cs.Kind = "nil containers"
 		for fn, want := range map[string]string{"nilSlice": "[]", "nilMap": "map[]"} {
@@ -422,7 +466,7 @@ func c14RandCycle(rng *core.Rng) string {
 }
 
 func runC14(r *core.Run) {
-	r.SetRule("values of every supported kind (bool; int32/int8/uint8/uint32 boundaries; float64 classes: +-0, +-Inf, NaN, subnormal, 1e20/1e21, 1e-4/1e-5, 2^53, shortest-representation stress values, random bit patterns; strings incl. spaces, newlines, quotes, invalid UTF-8; slices nested to depth 5; mixed []any; single-entry maps; typed nil slice/map; struct references) rendered through Value.String and through script println / fmt.Println with 1-4 operands / fmt.Print / fmt.Sprint with host-supplied operands; cyclic object graphs (fixed catalogue plus random rings through struct fields, slices, maps and []any) rendered in a child process. non-trivial = every case (each renders at least one value); distinct by value description")
+	r.SetRule("values of every supported kind (bool; int32/int8/uint8/uint32 boundaries; float64 classes: +-0, +-Inf, NaN, subnormal, 1e20/1e21, 1e-4/1e-5, 2^53, shortest-representation stress values, random bit patterns; strings incl. spaces, newlines, quotes, invalid UTF-8; slices nested to depth 5; mixed []any; single-entry maps; typed nil slice/map; struct references, also after their type declaration ran several times in one VM) rendered through Value.String and through script println / fmt.Println with 1-4 operands / fmt.Print / fmt.Sprint with host-supplied operands; cyclic object graphs (fixed catalogue plus random rings through struct fields, slices, maps and []any) rendered in a child process. non-trivial = every case (each renders at least one value); distinct by value description")
 	r.Assume("fmt.Sprint / Sprintln on the mirrored native value are the specification; multi-entry map order, nil pointers and nested struct references inside containers are not specified by the property and not judged; for cyclic graphs only termination and bounded size are judged")
 	n := r.N(20000, 800000)
 	core.Parallel((n+99)/100, func(chunk int) {
